@@ -351,8 +351,10 @@ def equiv_worker(job, ra, rb, fp_prefix, replay_kind, witnesses_fn=None, cells_f
                     va = vb = repr(_e)
                 print("DEBUG", kind, lab, r, how if goal is not None else "-", va, vb, flush=True)
                 if _os.environ.get("SVX_DUMP") and goal is not None and r == 'unknown':
-                    print("DUMP A:", D._short(_t(a), 3000), flush=True)
-                    print("DUMP B:", D._short(_t(b), 3000), flush=True)
+                    import pickle as _pk
+                    _pk.dump((_t(a).sexpr(), _t(b).sexpr(), [h.sexpr() for h in (hy_lin if kind == "result" else hy)]),
+                             open("/tmp/dump_%s.pkl" % abs(hash(lab)), "wb"))
+                    print("DUMP written for", lab, flush=True)
             if r == 'sat':
                 viol.append({"fingerprint": fp, "detail": {"job": job["name"], "what": lab, "witness": wi},
                              "replay": dict({"kind": replay_kind, "spec": spec, "specB": rb.spec,
